@@ -173,6 +173,21 @@ impl RocksDBLogStore {
     fn index_to_key(index: u64) -> [u8; 8] {
         index.to_be_bytes()
     }
+
+    /// Largest index currently stored (0 when the log column family is empty).
+    fn stored_last_index(&self) -> u64 {
+        if let Some(cf) = self.db.cf_handle(LOG_CF) {
+            let mut iter = self.db.iterator_cf(&cf, IteratorMode::End);
+            if let Some(Ok((key, _))) = iter.next()
+                && key.len() == 8
+            {
+                return u64::from_be_bytes([
+                    key[0], key[1], key[2], key[3], key[4], key[5], key[6], key[7],
+                ]);
+            }
+        }
+        0
+    }
 }
 
 #[async_trait]
@@ -206,7 +221,8 @@ impl LogStore for RocksDBLogStore {
             .map_err(|e| StorageError::DbError(e.to_string()))?;
 
         if max_index > 0 {
-            self.last_index.store(max_index, Ordering::SeqCst);
+            // A batch may re-write lower indexes: the last index only ever grows here.
+            self.last_index.fetch_max(max_index, Ordering::SeqCst);
         }
 
         Ok(())
@@ -311,11 +327,17 @@ impl LogStore for RocksDBLogStore {
         // BufferedRaftLog::new() reads this on restart to restore last_purged_index/term
         // so that entry_term(last_purged_index) returns the correct term after restart.
         if let Some(cf_meta) = self.db.cf_handle(META_CF) {
-            let encoded = cutoff_index.encode_to_vec();
-            self.db
-                .put_cf(&cf_meta, PURGE_BOUNDARY_KEY, encoded)
-                .map_err(|e| StorageError::DbError(e.to_string()))?;
+            // The boundary only ever moves forward: a late purge with a lower cutoff must not
+            // make already compacted positions look like live log positions again.
+            let current = self.load_purge_boundary()?.map(|b| b.index).unwrap_or(0);
+            if cutoff_index.index >= current {
+                let encoded = cutoff_index.encode_to_vec();
+                self.db
+                    .put_cf(&cf_meta, PURGE_BOUNDARY_KEY, encoded)
+                    .map_err(|e| StorageError::DbError(e.to_string()))?;
+            }
         }
+        self.last_index.store(self.stored_last_index(), Ordering::SeqCst);
 
         Ok(())
     }
@@ -364,9 +386,8 @@ impl LogStore for RocksDBLogStore {
 
         // Update last_index: The new last_index should be from_index - 1
         // But if from_index is 0 or 1, last_index should be 0
-        let new_last_index = from_index.saturating_sub(1);
-
-        self.last_index.store(new_last_index, Ordering::SeqCst);
+        // (from_index - 1 need not exist - empty log, purged prefix - so ask the store)
+        self.last_index.store(self.stored_last_index(), Ordering::SeqCst);
 
         Ok(())
     }
@@ -392,14 +413,13 @@ impl LogStore for RocksDBLogStore {
         let end_key = Self::index_to_key(u64::MAX);
         batch.delete_range_cf(&cf, start_key, end_key);
 
-        let new_last_index =
-            new_entries.last().map(|e| e.index).unwrap_or(from_index.saturating_sub(1));
         for entry in &new_entries {
             batch.put_cf(&cf, Self::index_to_key(entry.index), entry.encode_to_vec());
         }
 
         self.db.write(&batch).map_err(|e| StorageError::DbError(e.to_string()))?;
-        self.last_index.store(new_last_index, Ordering::SeqCst);
+        // from_index - 1 need not exist (empty log, purged prefix): ask the store.
+        self.last_index.store(self.stored_last_index(), Ordering::SeqCst);
         Ok(())
     }
 
@@ -468,6 +488,10 @@ impl LogStore for RocksDBLogStore {
             batch.delete_cf(&cf, &key);
         }
 
+        if let Some(cf_meta) = self.db.cf_handle(META_CF) {
+            // a wiped log has no purge boundary either
+            batch.delete_cf(&cf_meta, PURGE_BOUNDARY_KEY);
+        }
         self.db.write(&batch).map_err(|e| StorageError::DbError(e.to_string()))?;
         self.last_index.store(0, Ordering::SeqCst);
         Ok(())
